@@ -44,6 +44,9 @@ def tu_flags(tu):
                 break
     if flags is None:
         flags = list(FALLBACK_FLAGS)
+        if REPO != "/repo":
+            # scratch worktree without a build directory: generated headers come from the main build
+            flags += ["-I/repo/_build/include", "-I/repo/_build"]
         if tu.endswith(".c"):
             flags = [f for f in flags if not f.startswith("-std=")]
     _flag_cache[tu] = flags
